@@ -15,7 +15,7 @@ RULE = ("differential over the five model classes as five programs: (a) predict_
         "(every op x shape x position x fault, accept side included): same accept/reject decision and same exception class; (c) "
         "the C18 alphabet: all pairs x 6 operators, hash / copy / deepcopy behaviour vectors, foreign operands; (d) "
         "inspect.signature of every public callable of model and rating classes; (e) BT-part vs BT-full on every 2-team game of "
-        "S2 and P2 x 3 outcomes (1e-12); non-trivial = every compared item (each is a distinct input on which five programs "
+        "S2 and P2 x 3 outcomes x 5 per-call option sets (1e-12); non-trivial = every compared item (each is a distinct input on which five programs "
         "are compared)")
 ASSUMPTIONS = ["'identical' = 1e-12 on numbers, exact on classes / booleans / signatures", "repr/str texts (which name the class) are not compared"]
 
@@ -159,15 +159,20 @@ def eval_static():
     return msgs, n
 
 
+def bt_options(cfg):
+    return [{}, {"tau": 0}, {"tau": 0.5 * cfg.beta, "limit_sigma": True}, {"limit_sigma": True}, {"tau": 2 * cfg.beta}]
+
+
 def eval_bt(cfg, g):
     msgs = []
     for r in spaces.weak_orders(2):
-        a = lib.rate(cfg.make("BTF"), g, ranks=list(r))
-        b_ = lib.rate(cfg.make("BTP"), g, ranks=list(r))
-        for (x, y) in zip(lib.flat(a), lib.flat(b_)):
-            if abs(x - y) > 1e-12 * max(abs(x), abs(y), cfg.beta):
-                msgs.append(f"BT-part and BT-full differ on a two-team game: {b_} vs {a}; game {g} ranks {list(r)} [{cfg.name}]")
-                break
+        for opts in bt_options(cfg):
+            a = lib.rate(cfg.make("BTF"), g, ranks=list(r), **opts)
+            b_ = lib.rate(cfg.make("BTP"), g, ranks=list(r), **opts)
+            for (x, y) in zip(lib.flat(a), lib.flat(b_)):
+                if abs(x - y) > 1e-12 * max(abs(x), abs(y), cfg.beta):
+                    msgs.append(f"BT-part and BT-full differ on a two-team game: {b_} vs {a}; game {g} ranks {list(r)} options {opts} [{cfg.name}]")
+                    break
     return msgs
 
 
@@ -176,8 +181,8 @@ def units(ctx):
     for op in c13.OPS:
         us.append(("grammar", op))
     us.append(("static",))
-    for K in ("K0", "K2", "K4", "K5", "K8"):
-        for sp, parts in (("S2", 2), ("P2", 6)):
+    for K in (("K0", "K2", "K4", "K5", "K8") if ctx.thorough else ("K0", "K4", "K5")):
+        for sp, parts in (("S2", 4), ("P2", 12)):
             for k in range(parts):
                 us.append(("bt", K, sp, k, parts))
     return us
@@ -219,8 +224,8 @@ def run_unit(unit, ctx):
         _, K, sp, k, parts = unit
         cfg = spaces.config(K)
         for g in spaces.sharded(spaces.value_games(sp, "BTF", cfg), k, parts):
-            acc.evals += 6
-            acc.nontrivial += 3
+            acc.evals += 30
+            acc.nontrivial += 15
             for m in eval_bt(cfg, g)[:1]:
                 acc.violation(PID, "bt-part-vs-full", m, {"what": "bt", "cfg": K, "game": core.game_hex(g)})
     return acc
